@@ -5,12 +5,13 @@ import numpy as np
 from hypothesis import strategies as st
 
 from ..core import Clause, Violation, Discard
+from .. import gens
 
 RULE = ("Cases: (grid, exhaustive) edges [1,2,4] and [0.5,1,2,4]; every [T x M] frequency array with T<=2 "
         "(quick) / T*M<=4 with T<=3 (thorough), M<=2 over the values {-1, 0.25, each edge, each mid-bin, above} "
         "x 2 amplitude patterns x {energy, amplitude}; (random) Hypothesis arrays T<=200, M<=6 with linear/log "
         "bin sets of 1..40 bins from define_hist_bins, each frequency snapped onto an edge with p=0.3, out-of-"
-        "range values on both sides. Oracle: brute force H[b,t]=sum_m w[t,m]*[e_b<=f[t,m]<e_b+1], w=a or a^2; "
+        "range values on both sides, arrays handed over C-contiguous / column-major / strided / read-only. Oracle: brute force H[b,t]=sum_m w[t,m]*[e_b<=f[t,m]<e_b+1], w=a or a^2; "
         "dense == H, sparse.toarray() == H, hilberthuang_1d[b,m] == sum_t, row sums agree, grand total == "
         "in-range amplitude/energy (<=1e-12 rel). Non-trivial: >=1 sample out of range or exactly on an edge.")
 ASSUMPTIONS = ["bin edges strictly increasing", "amplitudes finite and non-negative; frequencies finite"]
@@ -48,7 +49,9 @@ def oracle(case, rec):
     tag = ('below' if below else '') + ('above' if above else '') + ('edge' if onedge else '') or 'inrange'
     if not (np.all(np.isfinite(f)) and np.all(np.isfinite(a))):
         raise Discard('non-finite input (outside the domain)')
-    f0, a0 = f.copy(), a.copy()      # the routines get these; the case itself stays pristine for the replay file
+    lay = case.get('layout', 'C')
+    f0, a0 = gens.relayout(f.copy(), lay), gens.relayout(a.copy(), lay)   # what the routines get (the case stays pristine)
+    rec.cls('layout=' + lay)
     try:
         one = np.asarray(emd.spectra.hilberthuang_1d(f0, a0, edges.copy(), mode=mode))
         dense = np.asarray(emd.spectra.hilberthuang(f0, a0, edges.copy(), mode=mode, return_sparse=False))
@@ -116,7 +119,8 @@ def random_case(draw):
     if draw(st.booleans()):
         f[rng.random((T, M)) < 0.1] *= -1
     a = np.round(rng.random((T, M)) * 3, 4)
-    return {'f': f, 'a': a, 'edges': edges, 'mode': draw(st.sampled_from(['energy', 'amplitude']))}
+    return {'f': f, 'a': a, 'edges': edges, 'mode': draw(st.sampled_from(['energy', 'amplitude'])),
+            'layout': draw(st.sampled_from(gens.LAYOUTS))}
 
 
 CLAUSES = [
